@@ -55,6 +55,10 @@ def families(tier):
         # mkdir fails or the function fails
         {'name': 'stale', 'params': {'target': 'a/b/c/t', 'old_targets': ['a/b', 'a/b/c', 'a'], 'modes': ['ok', 'raise_before', 'no_create'],
                                      'faults': [None, 'a/b', 'a/b/c'], 'root_raises': True, 'mut_kinds': ['none', 'write']}, 'weight': 3},
+        # the previous build's output sat in a hand-made directory (a or a/b) that is removed as a whole before the next build,
+        # whose target lies below the old output's position
+        {'name': 'stale', 'params': {'target': 'a/b/c/t', 'old_targets': ['a/b', 'a/b/c'], 'modes': ['raise_before', 'raise_after', 'ok'],
+                                     'faults': [None], 'mut_kinds': ['rmtree'], 'mut_paths10': ['a', 'a/b']}, 'weight': 1},
         {'name': 'stale', 'params': {'target': 'a/b/c/t', 'modes': ['ok', 'raise_before', 'raise_after'], 'faults': [None, 'a/b/c'],
                                      'sibling': 'prefix', 'root_raises': True, 'mut_paths': ['a/b/cc/z', 'a/b/c']}, 'weight': 2},
     ]
@@ -201,7 +205,7 @@ def harness(eng, fam, P):
             ref_build(w.ref, w.cache, state, r0r.root)
             if ok and r0i.obs.get('outcome') == 'ok':
                 eng.witness('stale-target')
-            mutate(eng, w, 'm', P.get('mut_kinds') or ['none', 'delete', 'write', 'rmtree', 'file2dir'], ['a/b/c/t', 'a/b/c', 'a/b/z', 'a/b'])
+            mutate(eng, w, 'm', P.get('mut_kinds') or ['none', 'delete', 'write', 'rmtree', 'file2dir'], P.get('mut_paths10') or ['a/b/c/t', 'a/b/c', 'a/b/z', 'a/b'])
         nested = [None, 'before', 'after'][eng.choose('nested', 3)] if P.get('nested') else None
         eng.path_info['nested'] = nested
         sib2 = P.get('sibling')
